@@ -71,6 +71,7 @@ def run(ck):
         "unrelated = different extension or name not starting with 'logfile.' (the repository's own notion)",
         "fsync is a no-op in the harness (durability is not part of the property)",
     ]
+    rot.load_proposed(ck)
     exe = rot.build()
     # ---- 1. design level: the contract holds on the transcription for every history up to the bound
     d_i, d_d, d_t = (7, 6, 5) if quick else (9, 7, 7)
@@ -100,7 +101,6 @@ def run(ck):
     ck.extra["model_counterexamples_without_tolerance"] = [
         {"cf": x["cf"], "clauses": x["clauses"], "history": [[h["op"], h["mode"], h["t"], h["id"], h["sz"]] for h in x["ops"]]} for x in witnesses]
     rot.reach_check(ck, res, REACH)
-    ck.exhaustive = True
     ck.extra["model_bounds"] = {"index_depth": d_i, "date_depth": d_d, "datetime_depth": d_t, "sizes": sizes, "limit": 4, "restarts": 2,
                                 "tolerated_in_model": "count/deleted after an append restart for Date and DateAndTime (known deviation, judged on the real code)"}
     # ---- 2. behaviours: all complete histories to the export depth
@@ -108,10 +108,15 @@ def run(ck):
     ck.extra["histories_exported_by_tlc"] = sum(len(b) for b in behs)
     cap = 6000 if quick else None
     chosen = []
+    sampled = False
     for b in behs:
         if cap and len(b) > cap:
             b = rng.sample(b, cap)
+            sampled = True
         chosen += b
+    # exhaustive = the model was checked exhaustively for the bound AND every exported history was replayed on the real sink
+    ck.exhaustive = not sampled
+    ck.extra["model_exhaustive_for_bounds"] = True
     gmt = rot.Mapping(datetime(2023, 6, 12, 0, 0), 43200, "G", "GMT", daylen=2, dayoff=0)
     nyc = rot.Mapping(datetime(2024, 3, 9, 0, 0), 43200, "L", "America/New_York", daylen=2, dayoff=0)
     items, k = [], 0
@@ -126,15 +131,11 @@ def run(ck):
     for _ in range(nrand):
         items.append(random_history(rng, k)); k += 1
     # ---- 3. run on the real sink, 4. validate with TLC against the contract
-    obs, mine = rot.judge(ck, exe, items, PROPS)
-    rot.drift_check(ck, items, obs)
-    for it in items:
-        ck.case(rot.key_of(it), rot.rotated_count(it, obs) > 0)
-    for it in (items[n_tlc // 2], items[n_tlc + 1]):
-        ck.sample({"config": it["cfg"], "ops": [list(o) for o in it["ops"][:14]], "final_directory": rot.final_dir(it, obs)})
+    # random histories first in the sample list: put one long random history next to the TLC ones
+    rot.process(ck, exe, items[:n_tlc], PROPS)
+    rot.process(ck, exe, items[n_tlc:], PROPS, nsamples=1)
     ck.extra["histories_from_tlc_replayed"] = n_tlc
     ck.extra["histories_random"] = nrand
-    ck.extra["executions_rejected"] = len(mine)
 
 
 def replay(ck, path):
